@@ -18,6 +18,10 @@ CLAIMS = {
             "Generated hostile inputs (mutated valid streams, boundary lengths and counts, nesting to 2^18 levels) are fed to Parser.Next() until end or error; a panic, an array with an absent element, a read count beyond 10^6+1000*len, or the death of a memory-limited child process is a violation. Exploration: the input space is all byte strings up to 1 MiB.",
             "RLIMIT_AS=8GiB stands for 'a <=1MiB input must not need more than 8GiB'; the step bound is a count of Read calls, not a clock. Native fuzzing cannot be seeded; its saved input is the reproducible unit.",
             "DESIGN.md 4/C06"),
+    "C05": ("grammar-based property testing (rapid): well-formed requests generated from an independent command grammar, oracle = recorded handler calls vs the grammar's expected calls + reply pass-through",
+            "For each of the 67 registered commands hundreds of generated well-formed vectors (all option combinations/orders, binary strings, boundary numbers, duplicate keys, random letter case, optional SELECT) are served through the real connection loop on a scripted connection with a recording handler; the call log must equal the grammar's expectation and the reply must be the handler's result. Unknown names and application executors are covered by two more generators. Exploration: argument space is unbounded.",
+            "The grammar (internal/cmdspec) was written from the Redis command reference and redis/handler.go, not from the executors; combinations whose expected handler arguments are not defined by the interface (ZRANGE BYSCORE REV, KEEPTTL+EX, ZADD NX+GT) are not generated. EXPIRE's instant is checked as an interval bracketed by two clock readings of the harness.",
+            "DESIGN.md 4/C05, Appendix A"),
 }
 
 PENDING = {
